@@ -273,6 +273,10 @@ func plBody(r *Run) {
 func (e *plEngine) run() {
 	t := e.r.T
 	ns := []int{1, 4, 3, 7}
+	if !Thorough() && Chance(t, "rareN", 12) {
+		// sizes with 3k+2 members and the larger even one, now and then
+		ns = []int{2, 5, 6}
+	}
 	if Thorough() {
 		ns = []int{1, 4, 3, 7, 2, 5, 6}
 	}
